@@ -930,19 +930,46 @@ def rule_r11(prog, res):
              'whichever class it was customised from (a variant of a '
              'variant included)')
     c = prog.cls('spyne.model.complex:ComplexModelBase')
-    f = c.methods.get('_process_variants')
-    if f is None:
-        raise AnalysisError('ComplexModelBase._process_variants', 'not found')
-    regs = [a for a in walk_no_defs(f.node) if isinstance(a, ast.Assign) and
-            any(isinstance(t, ast.Subscript) and '_variants' in unparse(
-                t.value) for t in a.targets)]
-    res.floor('R11', 'registrations in _process_variants', len(regs), 1)
-    for a in regs:
-        guardspec.check(res, 'R11', f, a, 'the registration of a variant '
-                        'with its original', allowed=[
-                            ('orig is None', False)],
-                        required=[('orig is None', False)],
-                        key='_process_variants|registration')
+    n = 0
+    for f in c.methods.values():
+        if f.cls is not c:
+            continue
+        regs = [a for a in walk_no_defs(f.node) if isinstance(a, ast.Assign)
+                and any(isinstance(t, ast.Subscript) and '_variants' in
+                        unparse(t.value) for t in a.targets) and
+                isinstance(a.value, ast.Constant) and a.value.value is True]
+        for a in regs:
+            n += 1
+            # the original of the registered class, by whatever local name
+            import re as _re
+            got = []
+            for t, pol in guardspec.atoms_at(a, f.node):
+                t = _re.sub(r"getattr\(\w+, '__orig__', None\)", 'orig', t)
+                t = _re.sub(r"\b\w+\.__orig__\b", 'orig', t)
+                got.append((t, pol))
+            allowed = {('orig is None', False), ('cls is ComplexModel', False)}
+            extra = [g_ for g_ in got if g_ not in allowed]
+            missing = ('orig is None', False) not in got
+            where = '%s:%d' % (f.module.relpath, a.lineno)
+            res.ob('R11', where, '%s registers a variant with its original '
+                   'under %s' % (f.qualname, got),
+                   'VIOLATED' if extra or missing else 'ok')
+            for t, pol in extra:
+                res.finding('R11', '_process_variants|registration|extra-'
+                            'guard|%s%s' % ('' if pol else 'not ', t), where,
+                            'the registration of a variant with its original '
+                            'in %s is now conditional on "%s%s": a variant '
+                            'customised from another variant (Array(X.'
+                            'customize(...)), Mandatory(X)) is not recorded, '
+                            'so fields added to the original later never '
+                            'reach it' % (f.qualname, '' if pol else 'not ',
+                                          t))
+            if missing:
+                res.finding('R11', '_process_variants|registration|missing-'
+                            'guard', where, 'the registration in %s is no '
+                            'longer protected by the test that the class has '
+                            'an original' % f.qualname)
+    res.floor('R11', 'registrations of variants with their original', n, 1)
 
 
 def run(prog, res, tier):
